@@ -231,8 +231,9 @@ func (s *checkpoint) StartSchedule() {
 		return
 	}
 
+	s.running = true
+
 	go func() {
-		s.running = true
 		for s.running {
 			time.Sleep(s.config.Checkpoint.Interval)
 			s.Save()
